@@ -1,6 +1,7 @@
 /- Heap search on unambiguous, acyclic grammars, termination: every call of the model returns when the
    fuel is at least (rank + 1) · (rows + alternatives + arity + 6) — no KeyError, no failed assertion. -/
 import PS.Proofs.Enum.UTotal1
+import PS.Proofs.Enum.UNoBack
 namespace PS.UHS
 open PS PS.G
 set_option linter.unusedSectionVars false
@@ -18,12 +19,12 @@ structure THyp (E : Env U π) (L Al A : Nat) : Prop where
   /-- no non-terminal without rule (`assert best_program`) -/
   nonempty : ∀ nt rs, AList.lookup nt E.G.rules = some rs → flatOf rs ≠ []
 
-/-- calls at the non-terminals of smaller rank return with fuel `B` -/
-structure Low (E : Env U π) (rank : UNT U → Nat) (r B : Nat) : Prop where
+/-- calls at the non-terminals of smaller rank return with fuel `B` when at most `D` programs were rejected -/
+structure Low (E : Env U π) (rank : UNT U → Nat) (r B D : Nat) : Prop where
   query : ∀ si, rank si < r → (∃ rs, AList.lookup si E.G.rules = some rs) → ∀ n s p, B ≤ n → Base E s → CacheC s →
-    OPre E rank (.query si p) s → ∃ res, UHS.query E n s si p = some res
+    s.deleted.length ≤ D → OPre E rank (.query si p) s → ∃ res, UHS.query E n s si p = some res
   initNT : ∀ si, rank si < r → (∃ rs, AList.lookup si E.G.rules = some rs) → ∀ n s, B ≤ n → Base E s → CacheC s →
-    OPre E rank (.initNT si) s → ∃ res, UHS.initNT E n s si = some res
+    s.deleted.length ≤ D → OPre E rank (.initNT si) s → ∃ res, UHS.initNT E n s si = some res
 
 /-! ### the argument loop of `__add_successors_to_heap__` -/
 
@@ -120,10 +121,10 @@ theorem pushStep_total (H : OHyp E rank Good) {s1 : St U π} {F : Sym} {args : L
       rw [hres]
       exact ⟨_, rfl⟩
 
-theorem addLoop_total (H : OHyp E rank Good) {B : Nat} {nt : UNT U} (Lw : Low E rank (rank nt) B)
+theorem addLoop_total (H : OHyp E rank Good) {B D : Nat} {nt : UNT U} (Lw : Low E rank (rank nt) B D)
     (hclosed : ∀ F v w, (v, w) ∈ altsOf E nt F → ∀ a ∈ v, ∃ rs, AList.lookup a E.G.rules = some rs)
     (F : Sym) (args : List Prog) (v : List (UNT U)) (hko : KeyOK E nt F args v) :
-    ∀ (i : Nat) (n : Nat) (s : St U π), B + i + 1 ≤ n → i ≤ args.length → Base E s → CacheC s →
+    ∀ (i : Nat) (n : Nat) (s : St U π), B + i + 1 ≤ n → i ≤ args.length → Base E s → CacheC s → s.deleted.length ≤ D →
       OPre E rank (.addLoop F args nt v i) s → ∃ s', addLoop E n s F args nt v i = some s' := by
   have hk := H.ghyp.kway
   have hlen := derList_length E _ _ hko.2
@@ -131,19 +132,19 @@ theorem addLoop_total (H : OHyp E rank Good) {B : Nat} {nt : UNT U} (Lw : Low E 
   intro i
   induction i with
   | zero =>
-    intro n s hn _ _ _ _
+    intro n s hn _ _ _ _ _
     cases n with
     | zero => omega
     | succ n => exact ⟨s, by simp [addLoop]⟩
   | succ i ih =>
-    intro n s hn hi hbase hc hpre
+    intro n s hn hi hbase hc hD hpre
     cases n with
     | zero => omega
     | succ n =>
       have hai : args[i]? = some (args[i]'(by omega)) := List.getElem?_eq_getElem (by omega)
       have hsi : v[i]? = some (v[i]'(by omega)) := List.getElem?_eq_getElem (by omega)
       obtain ⟨hrk, hqpre⟩ := loop_pre_query H hbase hko hpre hai hsi
-      obtain ⟨res, hres⟩ := Lw.query _ hrk (hclosed F v w hw _ (List.mem_of_getElem? hsi)) n s _ (by omega) hbase hc hqpre
+      obtain ⟨res, hres⟩ := Lw.query _ hrk (hclosed F v w hw _ (List.mem_of_getElem? hsi)) n s _ (by omega) hbase hc hD hqpre
       obtain ⟨s1, r⟩ := res
       have hq := big_of_query E hres
       obtain ⟨hbase1, hbel1, hn1, hcinv1, hkey1, hseen1, hlive1, hlat1, hne, hr, hr1, hr2, hargs⟩ :=
@@ -154,7 +155,9 @@ theorem addLoop_total (H : OHyp E rank Good) {B : Nat} {nt : UNT U} (Lw : Low E 
         hne hr hcinv1 hr1 hr2 hs3
       have hbel3 : Below E rank (rank nt) s3 := hbel1.only ho3 hst3 (Nat.le_refl _)
       have hpop3 : ∀ x, Popped s3 nt x ↔ Popped s1 nt x := by intro x; unfold Popped; rw [hsucc3]
-      obtain ⟨s', hs'⟩ := ih n s3 (by omega) (by omega) hbase3 (hc1.pushStep E hk hs3).1
+      have hD3 : s3.deleted.length ≤ D := by
+        rw [(pushStep_proc E hk hs3).2, big_deleted E hq hk]; exact hD
+      obtain ⟨s', hs'⟩ := ih n s3 (by omega) (by omega) hbase3 (hc1.pushStep E hk hs3).1 hD3
         ⟨hbel3, ⟨hn3, hc3⟩, hseen3 _ hseen1, by rw [hsucc3]; exact hlive1, fun x hx => hlat1 x ((hpop3 x).mp hx), hkey3⟩
       refine ⟨s', ?_⟩
       unfold addLoop
@@ -167,62 +170,137 @@ theorem addLoop_total (H : OHyp E rank Good) {B : Nat} {nt : UNT U} (Lw : Low E 
 
 /-! ### `query` on an initialised non-terminal -/
 
-theorem popLoop_total (H : OHyp E rank Good) (hnf : ∀ p, E.filter p = true) {L Al A : Nat} (T : THyp E L Al A) {B : Nat}
-    {nt : UNT U} (Lw : Low E rank (rank nt) B) (n : Nat) (s : St U π) (key : Option Prog) (hn : B + A + 3 ≤ n)
-    (hbase : Base E s) (hc : CacheC s) (hnpre : AList.lookup key (s.succOf nt) = none)
-    (hpre : OPre E rank (.popLoop nt key) s) : ∃ res, popLoop E n s nt key = some res := by
-  cases n with
-  | zero => omega
-  | succ n =>
-    unfold popLoop
-    cases hp : Heapq.pop (ltE E.ops) (s.heapOf nt) with
-    | none => exact ⟨_, rfl⟩
-    | some eh =>
-      obtain ⟨e, h'⟩ := eh
-      simp only
-      have hdel : (s.setHeap nt h').deleted.contains e.2 = false := by
-        show s.deleted.contains e.2 = false
-        rw [hbase.nodel hnf]; rfl
-      simp only [hdel, Bool.false_eq_true, if_false]
-      obtain ⟨h1, h2, h3, _⟩ := hpre
-      obtain ⟨hbase0, hst0, ho0⟩ := hbase.popTake H nt key e h' hp hnpre
-      obtain ⟨n0, p0, l0, le0⟩ := h2.1.popTake H hbase key e h' hp hnpre h3
-      have c0 : CInv E rank (s.popTake nt key e h') nt (some e.2) (arity e.2) :=
-        h2.2.popTake hbase key e h' hp hnpre _ (by intro F args he; rw [he]; exact Nat.le_refl _)
-      have hb0 : Below E rank (rank nt) (s.popTake nt key e h') := h1.only ho0 hst0 (Nat.le_refl _)
-      have hc0 : CacheC (s.popTake nt key e h') := hc.congr (fun _ => rfl) (CacheGrow.refl _)
-      have hlive0 : (s.popTake nt key e h').succOf nt ≠ [] := by
-        obtain ⟨k, hk⟩ := p0
-        intro e'; rw [e'] at hk; cases hk
-      have hsucc : ∃ s', addSucc E n (s.popTake nt key e h') e.2 nt = some s' := by
-        cases n with
-        | zero => omega
-        | succ n =>
-          have hseen0 := p0.seen hbase0.sinv
-          rcases hprog : e.2 with ⟨F, kids⟩
-          rw [hprog] at hseen0 c0 l0
-          cases kids with
-          | nil => exact ⟨_, rfl⟩
-          | cons a as =>
-            obtain ⟨v, hv⟩ := c0.keyed _ hseen0
-            have hko := hbase0.sinv.keys_ok nt F (a :: as) v hv
-            obtain ⟨w, hw⟩ := hko.1
-            have hA := T.arity nt F v w hw
-            have hlen := derList_length E _ _ hko.2
-            simp only [addSucc, hv]
-            exact addLoop_total H Lw (fun F v w hm => T.closed nt F v w hm) F (a :: as) v hko (a :: as).length n _
-              (by rw [hlen]; omega) (Nat.le_refl _) hbase0 hc0 ⟨hb0, ⟨n0, c0⟩, hseen0, hlive0, l0, hv⟩
-      obtain ⟨s', hs'⟩ := hsucc
-      show ∃ res, (match addSucc E n (s.popTake nt key e h') e.2 nt with
-        | none => none
-        | some s' => some (s', some e.2)) = some res
-      rw [hs']
-      exact ⟨_, rfl⟩
+theorem popLoop_total (H : OHyp E rank Good) {L Al A : Nat} (T : THyp E L Al A) {B D : Nat}
+    {nt : UNT U} (Lw : Low E rank (rank nt) B D) : ∀ (m n : Nat) (s : St U π) (key : Option Prog), undone s nt ≤ m →
+    B + A + 3 + m ≤ n → Base E s → CacheC s → s.deleted.length ≤ D → AList.lookup key (s.succOf nt) = none →
+    OPre E rank (.popLoop nt key) s → ∃ res, popLoop E n s nt key = some res := by
+  have hk := H.ghyp.kway
+  intro m
+  induction m with
+  | zero =>
+    intro n s key hm hn hbase hc hD hnpre hpre
+    exact step H T Lw 0 (fun s1 hlt => by omega) n s key hm hn hbase hc hD hnpre hpre
+  | succ m ih =>
+    intro n s key hm hn hbase hc hD hnpre hpre
+    exact step H T Lw (m + 1) (fun s1 hlt n1 key1 hn1 hb1 hc1 hD1 hnp1 hpre1 =>
+      ih n1 s1 key1 (by omega) hn1 hb1 hc1 hD1 hnp1 hpre1) n s key hm hn hbase hc hD hnpre hpre
+where
+  step (H : OHyp E rank Good) {L Al A : Nat} (T : THyp E L Al A) {B D : Nat} {nt : UNT U} (Lw : Low E rank (rank nt) B D)
+      (m : Nat)
+      (ih : ∀ s1 : St U π, undone s1 nt < m → ∀ (n1 : Nat) (key1 : Option Prog), B + A + 3 + (m - 1) ≤ n1 → Base E s1 →
+        CacheC s1 → s1.deleted.length ≤ D → AList.lookup key1 (s1.succOf nt) = none →
+        OPre E rank (.popLoop nt key1) s1 → ∃ res, popLoop E n1 s1 nt key1 = some res)
+      (n : Nat) (s : St U π) (key : Option Prog) (hm : undone s nt ≤ m) (hn : B + A + 3 + m ≤ n) (hbase : Base E s)
+      (hc : CacheC s) (hD : s.deleted.length ≤ D) (hnpre : AList.lookup key (s.succOf nt) = none)
+      (hpre : OPre E rank (.popLoop nt key) s) : ∃ res, popLoop E n s nt key = some res := by
+    have hk := H.ghyp.kway
+    cases n with
+    | zero => omega
+    | succ n =>
+      unfold popLoop
+      cases hp : Heapq.pop (ltE E.ops) (s.heapOf nt) with
+      | none => exact ⟨_, rfl⟩
+      | some eh =>
+        obtain ⟨e, h'⟩ := eh
+        simp only
+        obtain ⟨h1, h2, h3, h4⟩ := hpre
+        -- `__add_successors__` of the popped program returns
+        have haddS : ∀ (s0 : St U π), Base E s0 → CacheC s0 → s0.deleted.length ≤ D →
+            OPre E rank (.addSucc e.2 nt) s0 → ∃ s', addSucc E n s0 e.2 nt = some s' := by
+          intro s0 hbase0 hc0 hD0 hpre0
+          obtain ⟨hb0, hnc, hseen0, hlive0, l0⟩ := hpre0
+          cases n with
+          | zero => omega
+          | succ n =>
+            rcases hprog : e.2 with ⟨F, kids⟩
+            rw [hprog] at hseen0 hnc l0
+            cases kids with
+            | nil => exact ⟨_, rfl⟩
+            | cons a as =>
+              obtain ⟨v, hv⟩ := hnc.2.keyed _ hseen0
+              have hko := hbase0.sinv.keys_ok nt F (a :: as) v hv
+              obtain ⟨w, hw⟩ := hko.1
+              have hA := T.arity nt F v w hw
+              have hlen := derList_length E _ _ hko.2
+              simp only [addSucc, hv]
+              exact addLoop_total H Lw (fun F v w hm => T.closed nt F v w hm) F (a :: as) v hko (a :: as).length n _
+                (by rw [hlen]; omega) (Nat.le_refl _) hbase0 hc0 hD0 ⟨hb0, hnc, hseen0, hlive0, l0, hv⟩
+        by_cases hdel : s.deleted.contains e.2 = true
+        · -- the popped program was rejected: it is skipped
+          have hdel' : (s.setHeap nt h').deleted.contains e.2 = true := hdel
+          simp only [hdel', if_true]
+          have hlive : s.succOf nt ≠ [] := by
+            intro e0
+            rw [h4 e0] at hdel
+            simp at hdel
+          obtain ⟨hbase0, hst0, ho0⟩ := hbase.popDrop H nt e h' hp
+          obtain ⟨n0, l0⟩ := h2.1.popDrop H hbase e h' hp hlive
+          have c0 : CInv E rank (s.setHeap nt h') nt (some e.2) (arity e.2) :=
+            h2.2.popDrop hbase e h' hp hdel _ (by intro F args he; rw [he]; exact Nat.le_refl _)
+          have hb0 : Below E rank (rank nt) (s.setHeap nt h') := h1.only ho0 hst0 (Nat.le_refl _)
+          have hm0 := (mem_of_pop _ _ _ _ hp).1
+          have hseen0 : e.2 ∈ (s.setHeap nt h').seenOf nt := hbase.sinv.heap_seen nt e hm0
+          have hc0 : CacheC (s.setHeap nt h') := hc.congr (fun _ => rfl) (CacheGrow.refl _)
+          have hpre0 : OPre E rank (.addSucc e.2 nt) (s.setHeap nt h') := ⟨hb0, ⟨n0, c0⟩, hseen0, hlive, l0⟩
+          obtain ⟨s1, hs1⟩ := haddS _ hbase0 hc0 hD hpre0
+          simp only [hs1]
+          have ha := (big_of_run E n).2.2.1 _ _ _ _ hs1
+          obtain ⟨hbase1, hst1, _, _, _, _⟩ := big_all H ha hbase0 trivial trivial
+          obtain ⟨a1, a2, a3⟩ := big_order H ha hbase0 trivial trivial hpre0
+          have hsucc1 : s1.succOf nt = s.succOf nt := a3
+          have hc1 := (big_cacheC E hk ha hc0).1
+          have hdl1 : s1.deleted = s.deleted := by
+            have := big_deleted E ha hk
+            exact this
+          -- one rejected program less to skip
+          have hperm := pop_progs hp
+          have hnd : (e.2 :: h'.map (·.2)).Nodup := hperm.nodup_iff.mp (hbase.ninv.heap_nodup nt)
+          have hproc0 : Proc (s.setHeap nt h') nt e.2 := by
+            refine ⟨hseen0, ?_⟩
+            unfold St.heapProgs
+            rw [St.heapOf_setHeap, if_pos rfl]
+            exact (List.nodup_cons.mp hnd).1
+          have hnproc : ¬ Proc s nt e.2 := by
+            intro hpr
+            apply hpr.2
+            exact hperm.symm.subset List.mem_cons_self
+          have hlt : undone s1 nt < undone s nt := by
+            apply undone_lt hdl1 _ e.2 (by simpa using hdel) hnproc
+              (addSucc_proc E H.ghyp rank H.acyclic ha hbase0.sinv e.2 hproc0)
+            intro q hq
+            apply addSucc_proc E H.ghyp rank H.acyclic ha hbase0.sinv q
+            refine ⟨hq.1, ?_⟩
+            unfold St.heapProgs
+            rw [St.heapOf_setHeap, if_pos rfl]
+            intro hin
+            exact hq.2 (hperm.symm.subset (List.mem_cons_of_mem _ hin))
+          exact ih s1 (by omega) n key (by omega) hbase1 hc1 (by rw [hdl1]; exact hD)
+            (by rw [hsucc1]; exact hnpre)
+            ⟨a1, a2, fun k hk' => by unfold Popped; rw [hsucc1]; exact h3 k hk', fun e0 => absurd (hsucc1 ▸ e0) hlive⟩
+        · have hdel' : (s.setHeap nt h').deleted.contains e.2 = false := by
+            show s.deleted.contains e.2 = false
+            simpa using hdel
+          simp only [hdel', Bool.false_eq_true, if_false]
+          obtain ⟨hbase0, hst0, ho0⟩ := hbase.popTake H nt key e h' hp hnpre
+          obtain ⟨n0, p0, l0, le0⟩ := h2.1.popTake H hbase key e h' hp hnpre h3
+          have c0 : CInv E rank (s.popTake nt key e h') nt (some e.2) (arity e.2) :=
+            h2.2.popTake hbase key e h' hp hnpre _ (by intro F args he; rw [he]; exact Nat.le_refl _)
+          have hb0 : Below E rank (rank nt) (s.popTake nt key e h') := h1.only ho0 hst0 (Nat.le_refl _)
+          have hc0 : CacheC (s.popTake nt key e h') := hc.congr (fun _ => rfl) (CacheGrow.refl _)
+          have hlive0 : (s.popTake nt key e h').succOf nt ≠ [] := by
+            obtain ⟨k, hk'⟩ := p0
+            intro e'; rw [e'] at hk'; cases hk'
+          obtain ⟨s', hs'⟩ := haddS _ hbase0 hc0 hD ⟨hb0, ⟨n0, c0⟩, p0.seen hbase0.sinv, hlive0, l0⟩
+          show ∃ res, (match addSucc E n (s.popTake nt key e h') e.2 nt with
+            | none => none
+            | some s' => some (s', some e.2)) = some res
+          rw [hs']
+          exact ⟨_, rfl⟩
 
-theorem queryInited_total (H : OHyp E rank Good) (hnf : ∀ p, E.filter p = true) {L Al A : Nat} (T : THyp E L Al A) {B : Nat}
-    {nt : UNT U} (Lw : Low E rank (rank nt) B) (n : Nat) (s : St U π) (p : Option Prog) (hn : B + A + 4 ≤ n)
-    (hbase : Base E s) (hc : CacheC s) (hinit : s.initS.contains nt = true) (hpre : OPre E rank (.query nt p) s) :
-    ∃ res, query E n s nt p = some res := by
+theorem queryInited_total (H : OHyp E rank Good) {L Al A : Nat} (T : THyp E L Al A) {B D : Nat}
+    {nt : UNT U} (Lw : Low E rank (rank nt) B D) (n : Nat) (s : St U π) (p : Option Prog) (hn : B + A + 4 + D ≤ n)
+    (hbase : Base E s) (hc : CacheC s) (hD : s.deleted.length ≤ D) (hinit : s.initS.contains nt = true)
+    (hpre : OPre E rank (.query nt p) s) : ∃ res, query E n s nt p = some res := by
   cases n with
   | zero => omega
   | succ n =>
@@ -237,6 +315,6 @@ theorem queryInited_total (H : OHyp E rank Good) (hnf : ∀ p, E.filter p = true
         rcases h2 with hu | hn2
         · rw [hu.1] at hinit; cases hinit
         · exact hn2
-      exact popLoop_total H hnf T Lw n s p (by omega) hbase hc hl ⟨h1, hn2, h3, h4⟩
+      exact popLoop_total H T Lw D n s p (Nat.le_trans (undone_le s nt) hD) (by omega) hbase hc hD hl ⟨h1, hn2, h3, h4⟩
 
 end PS.UHS
